@@ -1034,6 +1034,8 @@ def _copies_each_in_order(e, tv) -> bool:
     inner = e
     if isinstance(e, ast.Call) and norm(e.func) in ("tuple", "list") and len(e.args) == 1:
         inner = e.args[0]
+    elif isinstance(e, ast.GeneratorExp) or (isinstance(e, ast.Call) and norm(e.func) == "map"):
+        return False  # lazy: nothing is copied until it is consumed -- see _lazy_snapshot
     if isinstance(inner, (ast.ListComp, ast.GeneratorExp)) and len(inner.generators) == 1 and not inner.generators[0].ifs \
             and isinstance(inner.generators[0].iter, ast.Name) and inner.generators[0].iter.id == tv and isinstance(inner.generators[0].target, ast.Name):
         return c05._is_copy_of(inner.elt, {inner.generators[0].target.id})
@@ -1121,6 +1123,12 @@ def _check_starred_snapshot(ctx, m, f, site, rc, bname, g, dom, mut_nodes):
                 return
             ctx.bad("C04.3", f, stn, f"the snapshot tuple `{bname}` copies the slots of `{site.tuple_var}` in the order {idxs}, not (single, variadic, pytree, arguments)")
             return
+    if isinstance(val, ast.GeneratorExp) or (isinstance(val, ast.Call) and norm(val.func) in ("map", "zip", "iter")):
+        # a bare generator expression / map object: the `.copy()` calls run when it is unpacked -- at the restore, after the check has already
+        # written into the live memos -- so the "snapshot" equals the state it is supposed to undo
+        ctx.bad("C04.2", f, stn, f"the snapshot `{bname} = {short(val, 50)}` is lazy (a generator / map object): the copies are only taken when it is consumed by the restore, "
+                "after the failed check has written into the live memos, so the rollback restores the mutated state", construct=f"lazy snapshot {bname}")
+        return
     ok = site.tuple_var is not None and _copies_each_in_order(val, site.tuple_var)
     if not ok and site.tuple_var is not None and isinstance(val, ast.Call) and [norm(a) for a in val.args] == [site.tuple_var]:
         ok = _helper_copies_each(m, f, val)
